@@ -412,7 +412,7 @@ def gTxOf (t : Tx) (pNone : Bool) (p : Proposal) (prevNone : Bool) (prevTx : Tx)
 /-- the state `reconcileInitialize` (transaction) reads once the proposals are listed: the
     transaction, its one proposal, the previous transaction of the log (`plNone`: none), the
     transaction named by the proposal's `PrevIndex` -/
-def gTxInitOf (t : Tx) (pNone : Bool) (p : Proposal) (plNone : Bool) (pl : Tx) (prevNone : Bool) (prevTx : Tx) : V2G :=
+def gTxInitOf (t : Tx) (listed : Bool) (pNone : Bool) (p : Proposal) (plNone : Bool) (pl : Tx) (prevNone : Bool) (prevTx : Tx) : V2G :=
   { n := fun k =>
       match k with
       | "transaction.Index" => t.index
@@ -425,7 +425,11 @@ def gTxInitOf (t : Tx) (pNone : Bool) (p : Proposal) (plNone : Bool) (pl : Tx) (
       | k => constCode k
     b := fun k =>
       match k with
-      | "transaction.Status.Proposals != nil" => true
+      | "transaction.Status.Proposals != nil" => listed
+      | "transaction.Details.() is *configapi.Transaction_Change" => !t.isRollback
+      | "transaction.Details.() is *configapi.Transaction_Rollback" => t.isRollback
+      | "err@r.proposals.Get#1" => pNone
+      | "errors.IsNotFound(err)@r.proposals.Get#1" => true
       | "prevTransaction.Status.Phases.Initialize != nil" => pl.init != .none
       | "proposal.Status.Phases.Initialize != nil" => p.init != .none
       | "err@r.transactions.GetByIndex#1" => plNone
@@ -464,7 +468,8 @@ def txUpdToks : TxUpd → List Tok
 def effToksTx : Effect → List Tok
   | .tx _ _ u => txUpdToks u ++ [.write "r.updateTransactionStatus"]
   | .prop _ _ u => propUpdToks u ++ [.write "r.updateProposalStatus"]
-  | .createProp _ => [.write "r.proposals.Create"]
+  | .createProp p => [.setN "proposal.ID" 0, .setN "proposal.TransactionIndex" p.index, .setN "proposal.TargetID" 0,
+      .setN "proposal.Details.Change.Values" 0, .setN "proposal.TargetTypeVersion" 0, .write "r.proposals.Create"]
   | _ => [.misc "foreign effect"]
 
 def planTraceTx (pl : Plan) : List Tok :=
